@@ -298,6 +298,46 @@ PROPS["C17"] = {
                     "one goroutine per connection (operations of one connection are sequential)"],
 }
 
+PROPS["C01"] = {
+    "modules": ["SlogModel.Props.C01"],
+    "components": [("agent-c01", 100, 800)],
+    "rule": 'one case = one end-to-end run of the real agent in process (run.NewLoaderFromConfigFile -> StartOrchestrator -> LaunchInputs: TCP syslog input, extractions, transforms incl. a 100% drop filter, byKeySet orchestration, hybrid buffer, Fluentd Forward output in one of the three message modes) against a scripted fake upstream (per connection attempt: close at once / reset after k chunks / never ACK / late ACK / unknown-id ACK / healthy), 1-3 generations of graceful stop + restart on one queue directory, 1-3 client connections x 10-90 stamped records over 1-3 key sets with malformed and filtered records mixed in, stop after 0-100 ms, upstream session age 0/20/50/150 ms; all timeouts scaled to 10 ms - 2 s; the last generation ends with a healthy upstream; distinct by script; all non-trivial',
+    "level_text": 'Theorems over every action sequence of E2E.step (chunk-level system of one pipeline and output across generations; each action is the contract proved for a component: C11 packing, C03 buffer, C02 client, C04 persistence): C01_every_record_accounted (each record read is in the open chunk or in exactly one chunk, which is in exactly one of queued / in flight / acknowledged / counted dropped / on disk), C01_at_rest (while stopped: acknowledged, on disk or counted dropped - nothing only in memory), C01_drained (after a healthy drain: acknowledged or counted dropped), C01_chunk_in_one_place. Tie: the end-to-end harness evaluates the conclusion of C01_drained / C01_at_rest and byte identity of every delivered message on real runs; the component models are tied by C02 / C03 / C04 / C11.',
+    "level_note": "Trusted: Lean kernel + 3 standard axioms; the abstraction of each component to its proved contract (assume-guarantee composition is by reading, not by a refinement proof between Client.step / Buffer.step and E2E.step); sampled end-to-end runs. PARTIAL: liveness ('eventually acknowledged') is the hypothesis of C01_drained (the harness waits for the drain); multi-output configurations are independent copies (C12 harness).",
+    "partial": 'composition by contracts, not a mechanised refinement; liveness assumed as the drained state',
+    "assumptions": ["the composition of component contracts in E2E.step matches how the components are wired (read from orchestrate/, buffer/, output/)"],
+}
+
+PROPS["C05"] = {
+    "modules": ["SlogModel.Props.C05"],
+    "components": [("agent-c05", 100, 800)],
+    "rule": 'one case = one end-to-end run of the real agent in process (run.NewLoaderFromConfigFile -> StartOrchestrator -> LaunchInputs: TCP syslog input, extractions, transforms incl. a 100% drop filter, byKeySet orchestration, hybrid buffer, Fluentd Forward output in one of the three message modes) against a scripted fake upstream (per connection attempt: close at once / reset after k chunks / never ACK / late ACK / unknown-id ACK / healthy), 1-3 generations of graceful stop + restart on one queue directory, 1-3 client connections x 10-90 stamped records over 1-3 key sets with malformed and filtered records mixed in, stop after 0-100 ms, upstream session age 0/20/50/150 ms; all timeouts scaled to 10 ms - 2 s; the last generation ends with a healthy upstream; distinct by script; all non-trivial',
+    "level_text": 'Theorems on the same system: C05_chunks_hold_arrival_order (records of the chunks concatenated in id order = records in arrival order), C05_chunk_order_per_connection (strictly increasing ids on every upstream connection), C05_first_delivery_in_order / _spelled_out (at its first transmission a chunk is newer than everything transmitted before), C05_never_skips_older. Tie: the harness checks chunk-id order per upstream connection and tag and first-delivery order per (client connection, key set) from per-record stamps on real runs with spills, restarts and retransmissions.',
+    "level_note": "Trusted: as C01; order within one client connection up to the pipeline is C08 (framing) and the orchestrator's per-sink buffers (exercised end to end, not modelled).",
+    "partial": 'order between the connection handler and the pipeline channel is exercised, not modelled',
+    "assumptions": ["the composition of component contracts in E2E.step matches how the components are wired (read from orchestrate/, buffer/, output/)"],
+}
+
+PROPS["C18"] = {
+    "modules": ["SlogModel.Props.C18"],
+    "components": [("agent-c18", 100, 800)],
+    "rule": 'one case = one end-to-end run of the real agent in process (run.NewLoaderFromConfigFile -> StartOrchestrator -> LaunchInputs: TCP syslog input, extractions, transforms incl. a 100% drop filter, byKeySet orchestration, hybrid buffer, Fluentd Forward output in one of the three message modes) against a scripted fake upstream (per connection attempt: close at once / reset after k chunks / never ACK / late ACK / unknown-id ACK / healthy), 1-3 generations of graceful stop + restart on one queue directory, 1-3 client connections x 10-90 stamped records over 1-3 key sets with malformed and filtered records mixed in, stop after 0-100 ms, upstream session age 0/20/50/150 ms; all timeouts scaled to 10 ms - 2 s; the last generation ends with a healthy upstream; distinct by script; all non-trivial',
+    "level_text": 'C18_client_can_always_finish (from every state of the client transition system with a stop request, a plan of at most five enabled actions - enter collectLeftovers, end the acknowledger, merge, hand back, OnFinished - reaches finished: the client can never wedge), C18_buffer_destroy_enabled (destroy is always enabled and leaves nothing in memory; with C03_shutdown_accounted every chunk is saved or counted), four facts (every select of the client has a stop case, the stop signal aborts the connection, every wait on the stop path has a timeout, every I/O call sets a deadline). Tie: wall time of every graceful stop of the real agent against the sum of the scaled timeouts, for refusing / resetting / silent / late upstreams and loads from idle to pending ACKs.',
+    "level_note": "Trusted: Lean kernel + 3 standard axioms. PARTIAL: time is not in the models - the bound itself is measured by the harness, the theorems decide absence of wedging and the number of bounded waits; 'blocked mid-write' upstreams are emulated by never reading ACK-less connections, not by a full TCP window.",
+    "partial": 'time bound measured, not proved; wedge-freedom proved on the models',
+    "assumptions": ["the composition of component contracts in E2E.step matches how the components are wired (read from orchestrate/, buffer/, output/)"],
+}
+
+PROPS["C19"] = {
+    "modules": ["SlogModel.Props.C19"],
+    "components": [("agent-c19", 100, 800)],
+    "rule": 'one case = one end-to-end run of the real agent in process (run.NewLoaderFromConfigFile -> StartOrchestrator -> LaunchInputs: TCP syslog input, extractions, transforms incl. a 100% drop filter, byKeySet orchestration, hybrid buffer, Fluentd Forward output in one of the three message modes) against a scripted fake upstream (per connection attempt: close at once / reset after k chunks / never ACK / late ACK / unknown-id ACK / healthy), 1-3 generations of graceful stop + restart on one queue directory, 1-3 client connections x 10-90 stamped records over 1-3 key sets with malformed and filtered records mixed in, stop after 0-100 ms, upstream session age 0/20/50/150 ms; all timeouts scaled to 10 ms - 2 s; the last generation ends with a healthy upstream; distinct by script; all non-trivial',
+    "level_text": "C19_buffer_balance (pending = inputs - consumed - leftover - dropped in every reachable state of the buffer model), C19_dropped_counts_drops / C19_consumed_counts_confirms (the counters are exactly the drops / confirmations the conservation theorem speaks of), C19_shutdown_balance (accepted + recovered = consumed + dropped + kept), C19_input_counted_once (from C09), two facts (client metric call sites, pending gauge in every On* callback). Tie: C03's state comparison covers every buffer counter after every operation; the end-to-end harness compares the summed counters of real runs with its own event counts (lines sent = input passed + dropped, malformed = input dropped, input passed = pipeline passed + dropped, filtered = pipeline dropped, consumed = distinct chunks acknowledged by the upstream = output acknowledged).",
+    "level_note": 'Trusted: Lean kernel + 3 standard axioms. PARTIAL: forwarded / acknowledged counters and label attribution are tied by facts and by the end-to-end comparison, not modelled.',
+    "partial": 'client-side and labelled counters not modelled',
+    "assumptions": ["the composition of component contracts in E2E.step matches how the components are wired (read from orchestrate/, buffer/, output/)"],
+}
+
 NOT_APPLICABLE = {k: "check not built yet in this round (planned in DESIGN.md section 6); no claim is made" for k in
                   ["C%02d" % i for i in range(1, 20)]}
 
